@@ -234,6 +234,22 @@ struct gauss_seidel {
 
                     level[i] = l;
                     nlev = std::max(nlev, l+1);
+
+                    // Rows that are swept after this one, but whose (old)
+                    // unknowns are read here, should not share the level
+                    // with the current row. This is only relevant for
+                    // matrices with structurally nonsymmetric pattern.
+                    for(auto a = row_begin(A, i); a; ++a) {
+                        ptrdiff_t c = a.col();
+
+                        if (forward) {
+                            if (c <= i) continue;
+                        } else {
+                            if (c >= i) continue;
+                        }
+
+                        level[c] = std::max(level[c], l+1);
+                    }
                 }
 
 
